@@ -16,10 +16,10 @@ def coq_obligations(res, mod):
     lock = open(common.COQ / '.build.lock', 'w')
     fcntl.flock(lock, fcntl.LOCK_EX)
     try:
-        ok, log = common.build_coq()
-        res.obligation('coq-build (coq_makefile + make, full .vo)', ok,
+        ok, log = common.build_coq(prop_id=res.prop_id)
+        res.obligation('coq-build (coq_makefile + make of this property\'s files and their dependencies, full .vo)', ok,
                        '' if ok else log[-1500:])
-        hits = common.hygiene()
+        hits = common.hygiene(res.prop_id)
         res.obligation('hygiene: no Admitted/admit/Axiom/Parameter/'
                        'Conjecture/unchecked flags', not hits, '; '.join(hits))
         all_ok = ok and not hits
